@@ -18,7 +18,9 @@ RULE = ("the full decision table skipped x rate {0, 1/4, 1/2, float(0.1), 1, 3/2
         "histories of three runs on one recorder (a forced run must not leak into the next); the S3 cassette's size-based rule "
         "over ratio x draw with scripted random, and over histories of 2-3 S3 cassettes with a size-band calculator living in "
         "one process (created one after the other / interleaved / one saving in between; same or other bucket; a twin with "
-        "other content in the same size bands), each drawing from the generator it constructed itself: every decision "
+        "other content in the same size bands; fed directly or THROUGH a real TapeRecorder whose operations return / raise / "
+        "are interrupted, also with a calculated rate of 0 for every size), each drawing from the generator it constructed itself: "
+        "every save consults the calculator once, every decision "
         "follows the rule on the tapped draw and cassettes with the same history decide the same; seeded real-Random histories run twice and as content/outcome-varied twins; "
         "non-trivial = a row where the draw decides or a force/discard interacts; distinct = distinct case")
 ASSUMPTIONS = ["the Mersenne Twister is an oracle stream; uniformity is assumed, the kept fraction over a seeded history is "
@@ -243,7 +245,7 @@ MANIFEST = dict(
          "Tie: the full decision table (2x6x3x2x3x3 policy combinations x boundary draws, scripted random so that draw == rate "
          "is hit exactly) run on the real TapeRecorder in histories of three, cassette-call kinds and recorder fields compared "
          "with the model; the real S3TapeCassette._should_sample against the model rule, single decisions with a scripted draw "
-         "and histories of several cassettes in one process with their own generators (tapped draws). Direct predicate: harness-side "
+         "and histories of several cassettes in one process with their own generators (tapped draws), fed directly and through a real TapeRecorder around returning / raising / interrupted operations. Direct predicate: harness-side "
          "re-statement of the policy incl. draws consumed; seeded histories twice and as content/outcome-varied twins.",
     note="Trusted: Coq kernel + vm_compute, hand-written model, correspondence harness, harness-side policy re-statement. The "
          "random generator is an oracle stream (uniformity assumed; kept fraction over seeded histories reported, never a "
